@@ -46,9 +46,11 @@ func checkC11(r *Run) {
 	r4 := r.Rule("R-C11-4", "reader goroutine: serve() -> Close() -> close(connClosed) on every path, no blocking channel operation in between, single close site, Done() returns that channel")
 	r5 := r.Rule("R-C11-5", "lock order acyclic; no RWMutex read-locked twice on one path")
 	r6 := r.Rule("R-C11-6", "user callbacks (ConnState, OnError, Handler.Serve) are invoked with no library mutex held other than muConnecting")
+	r7 := r.Rule("R-C11-7", "closing is unconditional: BaseClient.Close closes the transport on every path, and so does Disconnect once DISCONNECT was written — otherwise a peer that keeps the connection open leaves Done() open and every blocked call hanging")
 	r1.Floor(5)
 	r2.Floor(5)
 	c.ruleCallbacksUnlocked(r6)
+	c.ruleCloseUnconditional(r7)
 	sites := c.sitesOrLost(r1)
 	c.ruleThreeWaySelect(r1, nil, sites)
 
@@ -421,5 +423,91 @@ func (c *Ctx) ruleCallbacksUnlocked(rr *RuleRep) {
 	}
 	if n == 0 {
 		rr.Lost("callbacks", "no user callback invocation found")
+	}
+}
+
+// closesTransport: the instruction closes the transport of a client: Transport.Close() (interface call on the Transport
+// field), a sync.Once.Do around it, or a call of a package function that does so on every path.
+func (c *Ctx) closesTransport(in ssa.Instruction, depth int) bool {
+	cc := callCommon(in)
+	if cc == nil {
+		return false
+	}
+	if _, isDefer := in.(*ssa.Defer); isDefer {
+		return false
+	}
+	if cc.IsInvoke() {
+		if cc.Method.Name() != "Close" {
+			return false
+		}
+		_, isT := isFieldLoad(c.Resolve(cc.Value), "BaseClient", "Transport")
+		return isT
+	}
+	g := c.StaticCalleeOf(cc)
+	if isStdCall(cc, "sync", "Do") && len(cc.Args) == 2 {
+		if mc, ok := c.Resolve(cc.Args[1]).(*ssa.MakeClosure); ok {
+			if fn, ok := mc.Fn.(*ssa.Function); ok {
+				return c.mustCloseTransport(fn, depth+1)
+			}
+		}
+		return false
+	}
+	if g == nil || g.Pkg != c.Pkg || g.Blocks == nil {
+		return false
+	}
+	return c.mustCloseTransport(g, depth+1)
+}
+
+// mustCloseTransport: every path of g from entry to a return closes the transport.
+func (c *Ctx) mustCloseTransport(g *ssa.Function, depth int) bool {
+	if depth > 3 || g == nil || len(g.Blocks) == 0 {
+		return false
+	}
+	_, escapes := CanReach(g, nil, func(in ssa.Instruction) bool { _, isRet := in.(*ssa.Return); return isRet },
+		PathQ{BlockInstr: func(in ssa.Instruction) bool { return c.closesTransport(in, depth) }})
+	return !escapes
+}
+
+func (c *Ctx) ruleCloseUnconditional(rr *RuleRep) {
+	cl := c.Method("BaseClient", "Close")
+	if cl == nil {
+		rr.Lost("(*BaseClient).Close", "not found")
+	} else if c.mustCloseTransport(cl, 0) {
+		rr.OK("(*BaseClient).Close", cl.Pos(), "every path closes the transport")
+	} else {
+		rr.Bad("(*BaseClient).Close", cl.Pos(), "Close can return without closing the transport (e.g. when some state says the connection is already closed): if the peer keeps its side open, the reader goroutine never ends, Done() stays open and blocked calls hang")
+	}
+	d := c.Method("BaseClient", "Disconnect")
+	wr := c.Method("BaseClient", "write")
+	if d == nil || wr == nil {
+		rr.Lost("(*BaseClient).Disconnect", "not found")
+		return
+	}
+	var w *ssa.Call
+	eachInstr(d, func(in ssa.Instruction) {
+		if c.isCallTo(in, wr) {
+			w = in.(*ssa.Call)
+		}
+	})
+	if w == nil {
+		rr.Lost("(*BaseClient).Disconnect/write", "DISCONNECT is not written through write()")
+		return
+	}
+	okAll := true
+	for _, e := range nilEdges(d, w) {
+		first := e.B.Succs[e.K].Instrs[0]
+		if c.closesTransport(first, 0) {
+			continue
+		}
+		if _, ok := MustFollow(d, first, func(in ssa.Instruction) bool { return c.closesTransport(in, 0) }, func(in ssa.Instruction) bool { return !realExit(in) }, PathQ{}); !ok {
+			okAll = false
+		}
+	}
+	if len(nilEdges(d, w)) == 0 {
+		rr.Undecided("(*BaseClient).Disconnect", w.Pos(), "the result of writing DISCONNECT is not tested")
+	} else if okAll {
+		rr.OK("(*BaseClient).Disconnect", w.Pos(), "after DISCONNECT was written the transport is closed on every path")
+	} else {
+		rr.Bad("(*BaseClient).Disconnect", w.Pos(), "after DISCONNECT was written Disconnect can return without closing the transport: a peer that does not close its side leaves Done() open and every blocked call hanging")
 	}
 }
